@@ -118,6 +118,16 @@ def generate(rng, tier):
         for mask in range(1, 2 ** n):
             vals = [math.nan if (mask >> i) & 1 else float(i) for i in range(n)]
             cases.append({"line": "G mono " + t_vec(vals, vlib.ff32, rng.choice(gen.LAYS_1D)), "meta": {"v": vals, "nan": True}})
+    # integer vectors reaching the ends of their type: neighbours further apart than the largest value (their difference overflows)
+    for lo, hi, tag in ((-(2 ** 63), 2 ** 63 - 1, "I"), (-(2 ** 31), 2 ** 31 - 1, "J")):
+        pool = [lo, lo + 1, lo // 2, -1, 0, 1, hi // 2, hi - 1, hi]
+        for n in range(2, 5):
+            for _ in range(gen.N(tier, 12, 60)):
+                v = [rng.choice(pool) for _ in range(n)]
+                if rng.random() < 0.5:
+                    v = sorted(set(v)) if rng.random() < 0.7 else sorted(v, reverse=True)
+                if len(v) >= 1:
+                    cases.append({"line": f"{tag} mono " + t_vec(v, gen.fi, rng.choice(gen.LAYS_1D)), "meta": {"v": v}})
     for vals in ([-math.inf, 0.0, math.inf], [math.inf, math.inf], [0.0, -0.0, 1.0]):
         cases.append({"line": "G mono " + t_vec(vals, vlib.ff32), "meta": {"v": vals}})
     # random long vectors
